@@ -686,13 +686,13 @@ where
         
         hash_map.clear();
         
-        // Reset all nodes and add to free list
+        // Reset all nodes; every node (used or not) goes back to the free list
         free_nodes.clear();
         for (i, node) in nodes.iter_mut().enumerate() {
             if node.is_valid {
                 node.reset();
-                free_nodes.push(i as u32);
             }
+            free_nodes.push(i as u32);
         }
         
         // Reset LRU list
